@@ -253,6 +253,39 @@ var c16Classes = []c16Class{
 	{"watch", func(cn *wire.Conn, rng *rand.Rand, i int, _ *c16Env) error {
 		return pipe(cn, []string{"WATCH", "k0", "l0"}, []string{"MULTI"}, []string{"SET", "k0", "w"}, []string{"EXEC"}, []string{"UNWATCH"})
 	}},
+	{"dump-restore", func(cn *wire.Conn, rng *rand.Rand, i int, _ *c16Env) error {
+		switch i % 4 {
+		case 0:
+			return do(cn, "DUMP", "b0")
+		case 1:
+			return do(cn, "DUMP", "k0")
+		case 2:
+			return do(cn, "DUMP", "l0")
+		}
+		v, err := cn.Do("DUMP", "k1")
+		if err != nil {
+			return err
+		}
+		if v.IsString() && !v.Null {
+			_, err = cn.Do("RESTORE", "restored", "0", string(v.Str), "REPLACE")
+		}
+		return err
+	}},
+	{"blocking-pop-other-db", func(cn *wire.Conn, rng *rand.Rand, i int, _ *c16Env) error {
+		db := strconv.Itoa(1 + rng.Intn(3))
+		switch i % 3 {
+		case 0:
+			return pipe(cn, []string{"SELECT", db}, []string{"BLPOP", "bq", "0.02"}, []string{"SELECT", "0"})
+		case 1:
+			return pipe(cn, []string{"SELECT", db}, []string{"RPUSH", "bq", "e"}, []string{"BRPOP", "bq", "0.01"}, []string{"SELECT", "0"})
+		}
+		return pipe(cn, []string{"SELECT", db}, []string{"BLMOVE", "bq", "l1", "LEFT", "LEFT", "0.01"}, []string{"SELECT", "0"})
+	}},
+	{"select-new-db", func(cn *wire.Conn, rng *rand.Rand, i int, _ *c16Env) error {
+		// databases 4..15 come into existence while the periodic saver walks the set of databases
+		db := strconv.Itoa(4 + rng.Intn(12))
+		return pipe(cn, []string{"SELECT", db}, []string{"SET", "k0", "n"}, []string{"DBSIZE"}, []string{"SELECT", "0"})
+	}},
 	{"multi-introspection", func(cn *wire.Conn, rng *rand.Rand, i int, _ *c16Env) error {
 		return pipe(cn, []string{"MULTI"}, []string{"CLIENT", "LIST"}, []string{"CLIENT", "UNBLOCK", "999999"}, []string{"INFO"}, []string{"CLIENT", "KILL", "ID", "999999"}, []string{"DBSIZE"}, []string{"EXEC"})
 	}},
@@ -531,7 +564,7 @@ func c16RunPairs(r *verdict.Run, pairs []c16Pair, opsPerConn int, shard int) []h
 }
 
 func checkC16(r *verdict.Run) {
-	r.Rule = fmt.Sprintf("the emulator is built with -race and driven by a pair-coverage workload: %d command classes (string/list/hash/set/bitmap read+write, counters, blocking pops, set algebra, keyspace, expiry, SCAN, MULTI/EXEC, transactions with CLIENT LIST/KILL/UNBLOCK/INFO and with SELECT/FLUSHALL inside, WATCH, WATCH and writes across databases, SELECT, FLUSH, DBSIZE, CLIENT LIST/INFO/SETNAME, CLIENT UNBLOCK/KILL, INFO, HELLO, COMMAND, connection churn, SORT, invalid input); every scheduled pair runs 3+3 connections concurrently on the same keys, "+
+	r.Rule = fmt.Sprintf("the emulator is built with -race and driven by a pair-coverage workload: %d command classes (string/list/hash/set/bitmap read+write, counters, blocking pops, set algebra, keyspace, expiry, SCAN, MULTI/EXEC, transactions with CLIENT LIST/KILL/UNBLOCK/INFO and with SELECT/FLUSHALL inside, DUMP/RESTORE, blocking pops in other databases, databases created on first SELECT, WATCH, WATCH and writes across databases, SELECT, FLUSH, DBSIZE, CLIENT LIST/INFO/SETNAME, CLIENT UNBLOCK/KILL, INFO, HELLO, COMMAND, connection churn, SORT, invalid input); every scheduled pair runs 3+3 connections concurrently on the same keys, "+
 		"with the periodic saver on (persist path), a second emulator instance in the same process, SetHook toggled from the host and yields injected around the data store lock; race reports are read from the GORACE log, reduced to the sorted pair of innermost emulator functions. distinct = class pairs whose operations demonstrably overlapped in time", len(c16Classes))
 	n := len(c16Classes)
 	var all []c16Pair
